@@ -214,7 +214,13 @@ class SetMembersMixin:
                                     value = merge_stubs(member, value)  # type: ignore[arg-type]
                     for alias in member.aliases.values():
                         with suppress(CyclicAliasError):
-                            alias.target = value
+                            try:
+                                alias.target = value
+                            except AliasResolutionError:
+                                # The replacement is an alias that cannot be resolved:
+                                # aliases of the replaced object become unresolved again, by path.
+                                alias._target = None
+                                alias.target_path = value.path
             self.members[name] = value  # type: ignore[attr-defined]
             if self.is_collection:  # type: ignore[attr-defined]
                 value._modules_collection = self  # type: ignore[union-attr]
